@@ -91,11 +91,26 @@ func (r *Report) finish() int {
 	vacuous := 0
 	coverSat := 0
 	deadPaths := 0
+	var deadCalls []string
+	callReach := map[string]bool{}
 	retSat := map[string]bool{}
 	retAny := map[string]bool{}
 	for _, c := range r.covers {
 		solverS += c.Res.Seconds
 		isEntry := strings.HasSuffix(c.Name, "#cover[entry]")
+		if strings.Contains(c.Name, "#cover[call:") {
+			k := baseName(c.Name)
+			if _, ok := callReach[k]; !ok {
+				callReach[k] = false
+			}
+			if c.Res.Status != "unsat" {
+				callReach[k] = true
+			}
+			if c.Res.Status == "sat" {
+				coverSat++
+			}
+			continue
+		}
 		if !isEntry {
 			retAny[c.Func] = true
 		}
@@ -118,6 +133,12 @@ func (r *Report) finish() int {
 			}
 		}
 	}
+	for k, ok := range callReach {
+		if !ok {
+			deadCalls = append(deadCalls, k)
+		}
+	}
+	sort.Strings(deadCalls)
 	for f := range retAny {
 		if !retSat[f] {
 			vacuous++
@@ -125,6 +146,9 @@ func (r *Report) finish() int {
 		}
 	}
 	if rc.dump {
+		for _, dc := range deadCalls {
+			fmt.Printf("  dead-call %s\n", dc)
+		}
 		for _, o := range r.obls {
 			fmt.Printf("  %-7s %-12s %6.2fs %s  (%s) %s\n", o.Res.Status, o.Res.Solver, o.Res.Seconds, o.Name, o.Pos, o.Desc)
 		}
@@ -233,7 +257,7 @@ func (r *Report) finish() int {
 		"backends":                 backends,
 		"solver_seconds":           round3(solverS),
 		"load_seconds":             round3(r.loadS),
-		"vacuity":                  map[string]interface{}{"covers": len(r.covers), "covers_sat": coverSat, "vacuous": vacuous, "unreachable_return_paths": deadPaths},
+		"vacuity":                  map[string]interface{}{"covers": len(r.covers), "covers_sat": coverSat, "vacuous": vacuous, "unreachable_return_paths": deadPaths, "unreachable_call_sites": deadCalls},
 		"known_findings_matched":   knownHit,
 		"failed":                   violSamples,
 		"bounded":                  r.bounded,
